@@ -456,7 +456,9 @@ pub fn focus_position(rng: &mut Rng, kind: usize) -> Option<([u8; 64], bool, usi
     let mut c = [0u8; 64];
     let t = if kind == 0 { 1 + rng.below(5) as u8 } else { 2 + rng.below(5) as u8 };
     c[sq] = t + 6 * (if kind == 0 { 1 - me } else { me });
-    // first ring
+    // first ring.  Equal strength is the boundary of every "strictly stronger" test, so pieces of the
+    // focus piece's own type (either colour) are over-represented around it
+    let same_type = |rng: &mut Rng| -> u8 { t + 6 * rng.below(2) as u8 };
     let mut involved: Vec<usize> = vec![sq, dest];
     for n in neighbours(sq) {
         if n == dest {
@@ -464,7 +466,7 @@ pub fn focus_position(rng: &mut Rng, kind: usize) -> Option<([u8; 64], bool, usi
         }
         involved.push(n);
         if rng.chance(0.7) {
-            c[n] = random_piece(rng);
+            c[n] = if rng.chance(0.3) { same_type(rng) } else { random_piece(rng) };
         }
     }
     // make the intended first step likely to be legal: for a push, a stronger piece of the mover next
@@ -483,7 +485,7 @@ pub fn focus_position(rng: &mut Rng, kind: usize) -> Option<([u8; 64], bool, usi
             if !involved.contains(&m) {
                 involved.push(m);
                 if rng.chance(0.45) {
-                    c[m] = random_piece(rng);
+                    c[m] = if rng.chance(0.2) { same_type(rng) } else { random_piece(rng) };
                 }
             }
         }
